@@ -152,7 +152,9 @@ def make_case(rng, b, fam, orient):
     # ---- per state
     try:
         from ..sites_drive import transitions as _transitions
-        tr = _transitions(traj, structure, 'Li', site_radius=float(radius))
+        # states are defined by the SITE an atom is at (outer sphere), whatever the inner fraction used for jumps
+        inner_f = float([1.0, 0.5, 0.75][b % 3])
+        tr = _transitions(traj, structure, 'Li', site_radius=float(radius), site_inner_fraction=inner_f)
     except ValueError as e:
         if 'need at least one array' in str(e):      # no site change at all: outside the domain of the event builder
             return recs
@@ -173,7 +175,7 @@ def make_case(rng, b, fam, orient):
         recs.append({'b': b, 'act': 'States', 'G': G, 'N': N, 'R': R, 'pos': pos_all.tolist(), 'F': F,
                      'hist': hist_of(tr.states, tr.inner_states), 'labels': [lab_code[x] for x in labels],
                      'symbols': [[code[s], [i + 1 for i, q in enumerate(species_all) if q == s]] for s in syms], 'thr': thr, 'rdfs': rdfs,
-                     'meta': {'family': fam, 'orientation': orient, 'res': res, 'max_dist': max_dist, 'labels': labels, 'states': sorted(rd),
+                     'meta': {'family': fam, 'orientation': orient, 'res': res, 'max_dist': max_dist, 'labels': labels, 'states': sorted(rd), 'inner_fraction': inner_f,
                               'species_objects': ['Species', 'Element', 'mixed valence', 'Element and Species mixed'][deco]}})
     return recs
 
